@@ -82,11 +82,18 @@ def arg_for12(fname, i, pn, pt, writer):
         nof = ENUM_NOF.get(eb)
         inv = [("enum--1", "(%s)-1" % t, 1), ("enum-max+1", "(%s)%s" % (t, nof) if nof else "(%s)1000" % t, 1)]
     if kind == "pnts":
-        inv = [("range-zero", "SZ_ZERO", 1), ("range-beyond", "SZ_BAD_HI", 1)]
+        inv = []          # point sets may legitimately lie in rind planes (indices <= 0 or beyond the core range)
     if kind == "size" and pn in ("start", "end"):
         inv = [("range-start>end", "5" if pn == "start" else "0", 1)]
     if kind == "size" and pn == "npnts":
         inv = [("npnts-0", "0", 1), ("npnts--1", "-1", 1)]
+    if fname.startswith("cgio_"):
+        # the low-level layer: handles, names and data types are validated; 0 dimensions are legal (an MT node), and the
+        # dimension utilities (cgio_check_dimensions, cgio_copy_dimensions, cgio_compute_data_size) return values, not statuses
+        if kind == "dimcount":
+            inv = [x for x in inv if x[0] == "ndim-13"] if re.search(r"set_dimensions|new_node", fname) else []
+        if fname in ("cgio_compute_data_size", "cgio_check_dimensions", "cgio_copy_dimensions"):
+            inv = []
     return v, kind, inv
 
 
@@ -126,8 +133,10 @@ def gen_stubs(d, path):
         else:
             vals = [arg_for12(name, i, pn, pt, writer) for i, (pn, pt) in enumerate(params)]
         variants = [("valid", [v[0] for v in vals], 0, -1, "valid", "valid")]
+        has_status = ret == "int"
         for i, (v, kind, invs) in enumerate(vals):
             for cls, ex, must in invs:
+                must = must if has_status else 2          # 2: no status to return: only memory safety and "nothing changed"
                 argv = [x[0] for x in vals]
                 argv[i] = ex
                 pname = params[i][0] if i < len(params) else "arg%d" % i
@@ -190,7 +199,7 @@ def parse_cases(lines):
             cases.append(cur)
         elif cur is None:
             continue
-        elif l.startswith("S "):
+        elif l.startswith("S ") or l.startswith("D "):
             for kv in l.split()[3:]:
                 if "=" in kv:
                     k, v = kv.split("=", 1)
@@ -198,9 +207,9 @@ def parse_cases(lines):
                 elif kv == "OPENFAIL":
                     cur["openfail"] = True
         elif l.startswith("R "):
-            m = re.match(r"R (\S+) v=(\d+) tree=(\S+) file=(\S+) out=(\S+) desc=(.*)", l)
+            m = re.match(r"R (\S+) v=(\d+) out=(\S+) desc=(.*)", l)
             if m:
-                cur.update(tree=m.group(3), file=m.group(4), out=m.group(5), desc=m.group(6))
+                cur.update(out=m.group(3), desc=m.group(4))
         elif l.startswith("E "):
             cur["stderr"].append(l[2:])
     return cases
@@ -252,7 +261,7 @@ def make_templates(exe, work, states=STATES):
     return t
 
 
-def judge(c, e, mode):
+def judge(c, e, mode, must=1):
     """the property's oracle on one case with an invalid argument: -> list of what is wrong (empty = holds)"""
     bad = []
     if c.get("openfail"):
@@ -260,9 +269,9 @@ def judge(c, e, mode):
     if c.get("out") != "ok":
         bad.append("sanitizer/signal: " + san_summary(c))
         return bad
-    if c.get("st") == "0":
+    if must == 1 and c.get("st") == "0":
         bad.append("accepted (status CG_OK)")
-    elif c.get("msg") == "EMPTY":
+    elif must == 1 and c.get("msg") == "EMPTY":
         bad.append("error status with an EMPTY message")
     if c.get("view") == "CHANGED":
         bad.append("session view changed")
